@@ -3,6 +3,8 @@ import RsddModel.Driver.RingStream
 import RsddModel.Driver.TblStream
 import RsddModel.Driver.WmcStream
 import RsddModel.Driver.SddStream
+import RsddModel.Driver.OrdStream
+import RsddModel.Driver.OptStream
 /-!
 # Line-protocol driver
 
@@ -24,6 +26,8 @@ def judge (line : String) : String :=
     | "lru" => checkLruLine kvs rhs
     | "wmc" => checkWmcLine kvs rhs
     | "sdd" => checkSddLine kvs rhs
+    | "ord" => checkOrdLine kvs rhs
+    | "opt" => checkOptLine kvs rhs
     | _ => s!"FAIL PARSE unknown stream {stream}"
 
 partial def loop (h : IO.FS.Stream) : IO Unit := do
